@@ -53,6 +53,12 @@ def run(rep):
              'dictionary they fetched BEFORE the callback (never a re-fetched, '
              'live one): no answer computed before a mutation survives in the '
              'cache', floor=3)
+    rep.rule('B7', 'check-then-use on shared state: the per-order tables that the '
+             'mutators trim (del byorder[-1]) are the very list objects the uncached '
+             'walks of the lookup object read; an index into one of them must not be '
+             'able to raise IndexError out of the lookup (handled, sliced, or taken '
+             'from a private copy) - a length test before it is stale as soon as '
+             'other Python code runs', floor=3)
     rep.rule('B6', 'the extendor lists handed to in-flight walks are replaced, '
              'never edited in place (add_extendor/remove_extendor build a new '
              'list per ancestor; shared with C04 R04.3)', floor=2)
@@ -257,6 +263,8 @@ def run(rep):
     cside.fills(rep, u, 'B3c', only=('_lookup', '_lookupAll', '_subscriptions'))
     from . import shared as _shared
     _shared.extendor_index(rep, 'B6', mod)
+    from . import racesem as _race
+    _race.live_table_index(rep, mod, 'B7')
     ch = find_def(mod, 'LookupBase.changed')
     ok = all(_sem.paths_have(ch, ['self.%s.clear()' % c, 'self.%s = {}' % c])[0]
              for c in ('_cache', '_mcache', '_scache'))
